@@ -32,10 +32,10 @@ type treeInfo struct {
 	skeleton strings.Builder
 	anon     int
 
-	calls     []bo.Box             // the ::footnote-call boxes of the tree, in document order
+	calls     []bo.Box              // the ::footnote-call boxes of the tree, in document order
 	replaced  map[*html.Node]bo.Box // elements whose principal box is a replaced box
-	all       []bo.Box             // every box of the tree and of the footnote area
-	inFnArea  map[string]bool      // owners with a box in the footnote area
+	all       []bo.Box              // every box of the tree and of the footnote area
+	inFnArea  map[string]bool       // owners with a box in the footnote area
 	callsSeen int
 }
 
